@@ -6,12 +6,14 @@ import sys
 from common import Result, pmap, compare, Catch, VERIF
 
 ID = 'C15'
-COQ_FILES = ['Properties/C15.v', 'Proofs/TextProofs.v', 'Proofs/TextAlgebra.v', 'Gen/CaseTables.v']
+COQ_FILES = ['Properties/C15.v', 'Proofs/TextProofs.v', 'Proofs/TextAlgebra.v', 'Proofs/SliceProofs.v', 'Model/PySlice.v', 'Gen/TextSlices.v', 'Gen/CaseTables.v']
 TRUSTED = [
     'Gen/CaseTables.v is regenerated on every run by tools/gen/casetables.py from the running interpreter '
     '(str.upper/lower/title and casedness of the C15 alphabet U+0000..U+024F + CJK samples, closed under the mappings); '
     'Greek (final-sigma rule) is outside the alphabet',
-    'modelled, not verified: Python slicing, str.replace, re.sub(" {2,}"), str.strip(" "), chr/ord, str.join',
+    'Gen/TextSlices.v is regenerated on every run by tools/gen/textslices.py (python ast, fail-closed) from LEFT/RIGHT/MID of '
+    'formulas/text.py; Model/PySlice.v states Python slice semantics (negative / out-of-range bounds) by hand',
+    'modelled, not verified: Python slicing (Model/PySlice.v), str.replace, re.sub(" {2,}"), str.strip(" "), chr/ord, str.join',
 ]
 EXPLANATION = ('Coq theorems for strings of ANY length: LEFT/RIGHT/MID = firstn/skipn, whole text / empty / #VALUE! cases, '
                'LEFT&RIGHT split, MID(s,1,n)=LEFT, LEN additive; UPPER/LOWER idempotent and character-wise (lifted from '
@@ -31,8 +33,13 @@ def gen(ctx):
     sys.path.insert(0, os.path.join(VERIF, 'tools', 'gen'))
     import casetables
     changed = casetables.write(os.path.join(VERIF, 'coq', 'Gen', 'CaseTables.v'))
+    import textslices
+    root = os.environ.get('VERIF_SNAPSHOT', '/repo')
+    ch2, ok2, notes2 = textslices.write(os.path.join(VERIF, 'coq', 'Gen', 'TextSlices.v'), root)
     return {'Gen/CaseTables.v': 'regenerated (changed)' if changed else 'regenerated (identical to the committed baseline)',
-            'rows': len(casetables.domain())}
+            'rows': len(casetables.domain()),
+            'Gen/TextSlices.v': ('regenerated (changed)' if ch2 else 'regenerated (identical to the committed baseline)')
+            + ('' if ok2 else '; NOT UNDERSTOOD: ' + '; '.join(notes2))}
 
 
 def T(s):
